@@ -586,7 +586,11 @@ class Scheduler:
         holdcp = None
         if self.options.holdcp:
             holdcp = self.options.holdcp
-        elif self.config.cfg['scheduling']['hold after cycle point']:
+        elif (
+            # (on restart the hold point in effect, if any, comes from the DB)
+            not self.is_restart
+            and self.config.cfg['scheduling']['hold after cycle point']
+        ):
             holdcp = self.config.cfg['scheduling']['hold after cycle point']
         if holdcp is not None:
             await commands.run_cmd(commands.set_hold_point(self, holdcp))
